@@ -294,6 +294,12 @@ def rule_defaults(ctx):
     if vals.get('align.join') != 'outer':
         ctx.violated('R5', 'dimarray.config', "rcParams['align.join'] = %r" % vals.get('align.join'), "default align.join must be 'outer'")
     # get_dims: ordered union
+    # get_dims: the structural reading (two spellings) on trial, the scenario table of the function decides when neither is recognised
+    from ..report import on_trial
+    on_trial(ctx, _get_dims_structural, ['dimarray.core.align.get_dims'], ('R5',), 'get_dims')
+
+
+def _get_dims_structural(ctx):
     fi = ctx.fn('dimarray.core.align.get_dims')
     ev = run(ctx, fi)
     ARR = P_('*arrays')
